@@ -178,8 +178,10 @@ class Check:
                 continue
             if not res.exhaustive:
                 all_exhaustive = False
-                if not res.violations and part.must_exhaust:
+                if not res.violations and part.must_exhaust and self.tier == 'quick':
                     inconclusive.append(f'{part.name}: time cap hit with {res.left} prefixes left')
+                elif not res.violations:
+                    self.log(f'note: {part.name}: time cap hit with {res.left} prefixes left; reported as exhaustive=false (bug hunting only for the unexplored part)')
             if vac and res.exhaustive and not res.violations:
                 inconclusive.append(f'{part.name}: vacuous, no path reached coverage classes {vac}')
             # 4. classify + replay counterexamples
